@@ -194,7 +194,7 @@ class MagicNumberRule(MultiLanguageLintRule):  # thailint: ignore[srp]
         """Parse Python code into AST."""
         try:
             return ast.parse(code or "")
-        except SyntaxError:
+        except (SyntaxError, RecursionError, MemoryError):
             return None
 
     def _find_numeric_literals(self, tree: ast.AST) -> list:
